@@ -252,7 +252,13 @@ static bool delete_entity(size_t k) {
     case KMultiTag: return p->blk.deleteMultiTag(e.name);
     case KGroup: return p->blk.deleteGroup(e.name);
     case KSource: return p->kind == KBlock ? p->blk.deleteSource(e.name) : p->src.deleteSource(e.name);
-    case KFeature: return p->kind == KTag ? p->tag.deleteFeature(e.last) : p->mtag.deleteFeature(e.last);
+    case KFeature: {
+        // deleteFeature answers true even when nothing was removed (H5Group::removeGroup ignores the result of
+        // H5Gunlink, e.g. on a read-only file): believe the container, not the return value
+        bool r = p->kind == KTag ? p->tag.deleteFeature(e.last) : p->mtag.deleteFeature(e.last);
+        bool still = p->kind == KTag ? p->tag.hasFeature(e.last) : p->mtag.hasFeature(e.last);
+        return r && !still;
+    }
     default: return false;
     }
 }
